@@ -18,6 +18,8 @@
 (* A container is one top-level declaration with one tagged reference:     *)
 (*    callF d.PF(), funcValue d.PF -> PKGO02 (every reference)             *)
 (*    methCall s.PM(), methValue s.PM -> PKGO03 (every reference)          *)
+(*    methCallPromoted / methValuePromoted: e.PM() / e.PM where e is a     *)
+(*    local struct embedding d.S (the method is promoted) -> PKGO03        *)
 (*    methCallVar gs.PM() on a package-level variable declared in another  *)
 (*    file (the referencing file does not import d) -> PKGO03              *)
 (*    typeLit, typeVar, typeField, typeParam, typeResult (PT), typeLit2    *)
@@ -36,7 +38,7 @@ VARIABLES prog, fi, ci, ph, reported, diags
 vars == <<prog, fi, ci, ph, reported, diags>>
 
 Shapes == {"none", "bare", "name", "path", "lastelem", "other", "two_in", "two_out", "dup"}
-Refs == {"callF", "funcValue", "methCall", "methCallVar", "methValue", "typeLit", "typeVar", "typeField", "typeParam", "typeResult",
+Refs == {"callF", "funcValue", "methCall", "methCallVar", "methValue", "methCallPromoted", "methValuePromoted", "typeLit", "typeVar", "typeField", "typeParam", "typeResult",
          "typeLit2", "plain"}
 TypeRefs == {"typeLit", "typeVar", "typeField", "typeParam", "typeResult", "typeLit2"}
 Pkgs == {"d", "u", "v"}
@@ -81,7 +83,7 @@ ShapeOf(r0, al) == LET r == Base(r0) IN IF r = "typeLit2" THEN "bare" ELSE IF r 
 Allowed(P, ls) == P = "d" \/ PathOf(P) \in Union(ls) \/ NameOf(P) \in Union(ls)
 
 CodeOf(r0) == LET r == Base(r0) IN
-             CASE r \in {"callF", "funcValue"} -> "PKGO02" [] r \in {"methCall", "methCallVar", "methValue"} -> "PKGO03"
+             CASE r \in {"callF", "funcValue"} -> "PKGO02" [] r \in {"methCall", "methCallVar", "methValue", "methCallPromoted", "methValuePromoted"} -> "PKGO03"
                [] r \in TypeRefs -> "PKGO01" [] OTHER -> "none"
 
 Cand(r, al, P) == IF ShapeOf(r, al) # "none" /\ CodeOf(r) # "none" /\ ~Allowed(P, Lines(ShapeOf(r, al), P)) THEN CodeOf(r) ELSE "none"
